@@ -58,10 +58,13 @@ class Thread:
         self.prelocked = False
         self.pending = {}     # slot -> key: manually polled async acquisitions not yet completed
         self.exps = []        # guards of the running expiry call still to be dropped [(h,k)]
+        self.exp_cutoff = 0   # clock value the running expiry call read
 
 
 class SchedOracle:
     def __init__(self, kind, n):
+        self.now = 0          # mock clock (`adv` lines)
+        self.stamp = {}       # k -> time of the last `on_unlock` / fresh insert of a valued entry (lru)
         self.kind = kind
         self.threads = [None] * n
         self.vals = {}
@@ -109,6 +112,7 @@ class SchedOracle:
                         k = th.slots.pop(slot)
                         th.park = 'release'
                         th.releasing = (k, ('slot', slot))
+                        self.begin_release(k)
                     else:
                         th.park = 'cancel'
                         th.cancelling = slot
@@ -127,6 +131,7 @@ class SchedOracle:
             if st[0] == 'expire':
                 th.pc += 1
                 th.park = 'expire'
+                th.exp_cutoff = self.now   # the clock is read before the global lock is taken
                 return
             if st[0] == 'alock':
                 th.pc += 1
@@ -191,6 +196,7 @@ class SchedOracle:
                 k = th.slots.pop(slot)
                 th.park = 'release'
                 th.releasing = (k, ('slot', slot))
+                self.begin_release(k)
                 return
             if st[0] in ('count', 'keys'):
                 th.pc += 1
@@ -198,8 +204,15 @@ class SchedOracle:
                 return
             raise ValueError(st)
 
+    def begin_release(self, k):
+        """`on_unlock` stamps a valued entry with the current time, before the global lock is taken"""
+        if k in self.vals:
+            self.stamp[k] = self.now
+
     def apply_op(self, k, op):
         cur = self.vals.get(k)
+        if op[0] == 'insert' or (op[0] in ('tinsert', 'voi', 'voiw') and cur is None):
+            self.stamp[k] = self.now   # a freshly stored value is stamped
         cs = f'some {cur}' if cur is not None else 'nil'
         o = op[0]
         if o == 'value':
@@ -249,6 +262,7 @@ class SchedOracle:
             self.vals.pop(k, None)          # cooperative callback: remove()
             th.park = 'release'
             th.releasing = (k, ('cand', h))
+            self.begin_release(k)
         else:
             th.park = 'lookup'              # the loop runs again
 
@@ -258,6 +272,7 @@ class SchedOracle:
             (h, k) = th.exps.pop(0)
             th.park = 'release'
             th.releasing = (k, ('exp', h))
+            self.begin_release(k)
         else:
             self.advance(t, th, evs, i)
 
@@ -305,11 +320,14 @@ class SchedOracle:
                 th.park = 'D'
                 return
             got = [] if ev[4:] == '-' else [tuple(int(x) for x in p.split(':')) for p in ev[4:].split(',')]
-            # d = 0: exactly the entries that have a value and whose mutex is free (no guard, not handed to a waiter)
-            want = set(k for k in self.vals if not self.held(k) and not self.awaited(k))
+            # d = 0: exactly the entries that have a value, whose mutex is free (no guard, not handed to a waiter) and that were
+            # last unlocked at or before the moment the expiring thread read the clock
+            want = set(k for k in self.vals if not self.held(k) and not self.awaited(k)
+                       and self.stamp.get(k, 0) <= th.exp_cutoff)
             gk = [k for _, k in got]
             if len(set(gk)) != len(gk) or set(gk) != want:
-                self.fail(['C10'], i, f'thread {t}: expiry(0) returned guards for {gk}, exactly {sorted(want)} are unlocked and have a value')
+                self.fail(['C10'], i, f'thread {t}: expiry(0) with the clock read at {th.exp_cutoff} returned guards for {gk}, exactly '
+                                      f'{sorted(want)} are unlocked, have a value and were last unlocked by then (stamps {self.stamp})')
             for (h, k) in got:
                 if self.held(k):
                     self.fail(['C01', 'C10'], i, f'thread {t}: expiry returned a guard for key {k} while another guard for it is alive')
@@ -431,7 +449,10 @@ def check_sched_case(lines):
         if toks[0] == 'prog':
             orc.threads[int(toks[1])] = Thread(q.split(' ', 2)[2])
             continue
-        if toks[0] in ('reorder', 'adv'):
+        if toks[0] == 'adv':
+            orc.now += int(toks[1])
+            continue
+        if toks[0] == 'reorder':
             continue
         if toks[0] != 'step' or dead:
             continue
